@@ -1,7 +1,7 @@
 /- Line-protocol driver for the incentive model (engine `incentive`): same grammar as
    harness/src/engines/incentive.rs. Import-free apart from the model. -/
 import Driver.Util
-import WW.Model.Incentive
+import WW.Model.HelperReentry
 namespace Driver.Incentive
 open WW WW.Inc Driver
 
@@ -10,9 +10,10 @@ structure DSt where
   st : St
   epoch : Nat
 
-def actors : List (String × Nat) := [("alice", 1), ("bob", 2), ("carol", 3), ("dave", 4), ("owner", 5)]
+def actors : List (String × Nat) := [("alice", 1), ("bob", 2), ("carol", 3), ("dave", 4), ("owner", 5), ("mallory", 6)]
 def accts : List (String × Nat) :=
-  [("inc", 0), ("alice", 1), ("bob", 2), ("carol", 3), ("dave", 4), ("owner", 5), ("collector", 6), ("helper", 7), ("pair", 8)]
+  [("inc", 0), ("alice", 1), ("bob", 2), ("carol", 3), ("dave", 4), ("owner", 5), ("mallory", 6), ("collector", 7),
+   ("helper", 8), ("pair", 9)]
 
 def acctName (a : Nat) : String :=
   match accts.find? (fun p => p.2 == a) with
@@ -29,7 +30,7 @@ def initBal (c : Cfg) : Bal :=
   let one (who : Nat) : Bal :=
     [0, 1, 2, 3, 4].map (fun a => ((who, a), BAL0))
       ++ ([5, 6, 7, 8, 9].filter (fun a => c.native a)).map (fun a => ((who, a), BAL0))
-  (one 1) ++ (one 2) ++ (one 3) ++ (one 4) ++ (one 5) ++ [((PAIR, 0), BAL0)]
+  (one 1) ++ (one 2) ++ (one 3) ++ (one 4) ++ (one 5) ++ (one MALLORY) ++ [((PAIR, 0), BAL0)]
 
 /-- insertion sort on a key -/
 def insertBy {α : Type} (lt : α → α → Bool) (x : α) : List α → List α
@@ -155,8 +156,51 @@ def parseOp (name : String) (args : List String) : Option (Op × List String) :=
     else pure (.helperDepositAs x0 x1 a0 a1 d, rest)
   | _, _ => none
 
+/-- `<t1|t2|t3|t4> <plain|catch> <inner op> [offers] -- <outer op> [offers]`: hook (sent by mallory), outer op, outer offers -/
+def parseReenter (c : Cfg) (args : List String) : Option (Hook × Op × List (Nat × Nat)) :=
+  match args with
+  | t :: m :: rest => do
+    let trig ← (match t with
+      | "t1" => some 1
+      | "t2" => some 2
+      | "t3" => some 3
+      | "t4" => some 4
+      | _ => none)
+    let catch_ ← (match m with
+      | "plain" => some false
+      | "catch" => some true
+      | _ => none)
+    let inner := rest.takeWhile (fun x => x != "--")
+    let outer := (rest.dropWhile (fun x => x != "--")).drop 1
+    match inner, outer with
+    | iname :: iargs, oname :: oargs => do
+      let (iop, irest) ← parseOp iname iargs
+      let ioffers ← parseOffers c irest []
+      let (oop, orest) ← parseOp oname oargs
+      let offers ← parseOffers c orest []
+      pure ({ trig := trig, catch_ := catch_, sender := MALLORY, offers := ioffers, inner := iop }, oop, offers)
+    | _, _ => none
+  | _ => none
+
+def reenterLine (d : DSt) (ep tm who : String) (args : List String) : DSt × String :=
+  let r : Option (Env × Hook × Op) := do
+    let ep ← ep.toNat?
+    let tm ← tm.toNat?
+    let who ← actorId who
+    let (hk, op, offers) ← parseReenter d.cfg args
+    pure ({ epoch := ep, time := tm, sender := who, offers := offers }, hk, op)
+  match r with
+  | none => (d, "bad-op")
+  | some (e, hk, op) =>
+    let d := { d with epoch := e.epoch }
+    match stepTx d.cfg d.st e (.reenter hk op) with
+    | .ok (s', f) => let d' := { d with st := s' }; (d', observe "ok" d' ++ s!" fired={f}")
+    | .err => (d, observe "err" d ++ " fired=-")
+    | .panic => (d, observe "panic" d ++ " fired=-")
+
 def opLine (d : DSt) (ws : List String) : DSt × String :=
   match ws with
+  | ep :: tm :: who :: "reenter" :: args => reenterLine d ep tm who args
   | ep :: tm :: who :: name :: args =>
     let r : Option (Env × Op) := do
       let ep ← ep.toNat?
